@@ -1,0 +1,249 @@
+//! Verification hooks. Compiled only with `--cfg mscript_verif`; every hook is a no-op
+//! unless the matching environment variable is set.
+//!
+//! * `MSCRIPT_VERIF_TRACE=<file>`  ndjson event trace (instruction fetch, enter/leave,
+//!   print, module events). `MSCRIPT_VERIF_TRACE_INS=0` drops the per-instruction events.
+//! * `MSCRIPT_VERIF_DUMP=<file>`   ndjson dump of every function of every bytecode file
+//!   that is opened from disk or sealed in memory.
+
+use std::cell::{Cell, RefCell};
+use std::fmt::Write as FmtWrite;
+use std::fs::{File, OpenOptions};
+use std::io::{BufWriter, Write};
+
+use crate::instruction::Instruction;
+use crate::Primitive;
+
+thread_local! {
+    static TRACE: RefCell<Option<Option<BufWriter<File>>>> = const { RefCell::new(None) };
+    static TRACE_INS: Cell<bool> = const { Cell::new(true) };
+    static DEPTH: Cell<usize> = const { Cell::new(0) };
+}
+
+fn with_trace(f: impl FnOnce(&mut BufWriter<File>)) {
+    TRACE.with(|cell| {
+        let mut slot = cell.borrow_mut();
+        if slot.is_none() {
+            let opened = std::env::var("MSCRIPT_VERIF_TRACE").ok().and_then(|path| {
+                OpenOptions::new()
+                    .create(true)
+                    .append(true)
+                    .open(path)
+                    .ok()
+                    .map(BufWriter::new)
+            });
+            if std::env::var("MSCRIPT_VERIF_TRACE_INS").is_ok_and(|x| x == "0") {
+                TRACE_INS.with(|x| x.set(false));
+            }
+            *slot = Some(opened);
+        }
+        if let Some(Some(writer)) = slot.as_mut() {
+            f(writer);
+        }
+    });
+}
+
+pub(crate) fn json_str(out: &mut String, s: &str) {
+    out.push('"');
+    for c in s.chars() {
+        match c {
+            '"' => out.push_str("\\\""),
+            '\\' => out.push_str("\\\\"),
+            '\n' => out.push_str("\\n"),
+            '\r' => out.push_str("\\r"),
+            '\t' => out.push_str("\\t"),
+            c if (c as u32) < 0x20 => {
+                let _ = write!(out, "\\u{:04x}", c as u32);
+            }
+            c => out.push(c),
+        }
+    }
+    out.push('"');
+}
+
+fn emit(line: String, flush: bool) {
+    with_trace(|w| {
+        let _ = w.write_all(line.as_bytes());
+        let _ = w.write_all(b"\n");
+        if flush {
+            let _ = w.flush();
+        }
+    });
+}
+
+/// One record per fetched instruction, taken *before* the instruction runs.
+pub(crate) fn instruction(func: &str, ip: usize, op: u8, frame_depth: usize, operand_depth: usize) {
+    with_trace(|_| ());
+    if !TRACE_INS.with(|x| x.get()) {
+        return;
+    }
+    with_trace(|w| {
+        let mut line = String::with_capacity(96);
+        line.push_str("{\"e\":\"i\",\"fn\":");
+        json_str(&mut line, func);
+        let name = crate::compilation_bridge::raw_byte_instruction_to_string_representation(op)
+            .unwrap_or(std::borrow::Cow::Borrowed("?"));
+        let _ = write!(
+            line,
+            ",\"ip\":{ip},\"op\":\"{name}\",\"fd\":{frame_depth},\"od\":{operand_depth},\"ad\":{}}}\n",
+            DEPTH.with(|d| d.get())
+        );
+        let _ = w.write_all(line.as_bytes());
+    });
+}
+
+/// Guard for one activation of `Function::run`: `enter` on creation, `leave` on drop
+/// (also on the error path, where `ok` stays false).
+pub(crate) struct Activation {
+    pub(crate) name: String,
+    pub(crate) ok: bool,
+}
+
+impl Activation {
+    pub(crate) fn enter(name: String, frame_depth: usize, argc: usize, closure: bool) -> Self {
+        let depth = DEPTH.with(|d| {
+            d.set(d.get() + 1);
+            d.get()
+        });
+        let mut line = String::from("{\"e\":\"enter\",\"fn\":");
+        json_str(&mut line, &name);
+        let _ = write!(
+            line,
+            ",\"fd\":{frame_depth},\"ad\":{depth},\"argc\":{argc},\"cb\":{closure}}}"
+        );
+        emit(line, false);
+        Self { name, ok: false }
+    }
+}
+
+impl Drop for Activation {
+    fn drop(&mut self) {
+        let depth = DEPTH.with(|d| {
+            let now = d.get();
+            d.set(now.saturating_sub(1));
+            now
+        });
+        let mut line = String::from("{\"e\":\"leave\",\"fn\":");
+        json_str(&mut line, &self.name);
+        let _ = write!(line, ",\"ad\":{depth},\"ok\":{}}}", self.ok);
+        emit(line, true);
+    }
+}
+
+pub(crate) fn leave_depth(frame_depth: usize) {
+    emit(format!("{{\"e\":\"fd\",\"fd\":{frame_depth}}}"), false);
+}
+
+fn kind_of(p: &Primitive) -> &'static str {
+    match p {
+        Primitive::Bool(_) => "Bool",
+        Primitive::Str(_) => "Str",
+        Primitive::Int(_) => "Int",
+        Primitive::BigInt(_) => "BigInt",
+        Primitive::Float(_) => "Float",
+        Primitive::Byte(_) => "Byte",
+        Primitive::Function(_) => "Function",
+        Primitive::BuiltInFunction(_) => "BuiltInFunction",
+        Primitive::Vector(_) => "Vector",
+        Primitive::HeapPrimitive(_) => "HeapPrimitive",
+        Primitive::Object(_) => "Object",
+        Primitive::Module(_) => "Module",
+        Primitive::Optional(None) => "Nil",
+        Primitive::Optional(Some(_)) => "Optional",
+        Primitive::Map(_) => "Map",
+    }
+}
+
+fn kind_deep(p: &Primitive, out: &mut String) {
+    match p {
+        Primitive::HeapPrimitive(_) => match p.move_out_of_heap_primitive_borrow() {
+            Ok(inner) => kind_deep(inner.as_ref(), out),
+            Err(_) => out.push_str("HeapPrimitive"),
+        },
+        Primitive::Optional(Some(inner)) => {
+            out.push_str("Optional<");
+            kind_deep(inner, out);
+            out.push('>');
+        }
+        Primitive::Vector(v) => {
+            out.push_str("Vector<");
+            for (i, x) in v.0.borrow().iter().enumerate() {
+                if i != 0 {
+                    out.push(',');
+                }
+                kind_deep(x, out);
+            }
+            out.push('>');
+        }
+        other => out.push_str(kind_of(other)),
+    }
+}
+
+/// A value printed by `printn`.
+pub(crate) fn print(value: &Primitive) {
+    let mut kind = String::new();
+    kind_deep(value, &mut kind);
+    let mut line = String::from("{\"e\":\"print\",\"kind\":");
+    json_str(&mut line, &kind);
+    line.push_str(",\"text\":");
+    let text = if matches!(value, Primitive::Module(_) | Primitive::Object(_)) {
+        String::from("<opaque>")
+    } else {
+        value.to_string()
+    };
+    json_str(&mut line, &text);
+    if let Primitive::Float(x) = value {
+        let _ = write!(line, ",\"bits\":\"{:016x}\"", x.to_bits());
+    }
+    line.push('}');
+    emit(line, true);
+}
+
+pub(crate) fn module_event(event: &str, path: &str, extra: &str) {
+    let mut line = String::from("{\"e\":");
+    json_str(&mut line, event);
+    line.push_str(",\"path\":");
+    json_str(&mut line, path);
+    if !extra.is_empty() {
+        line.push(',');
+        line.push_str(extra);
+    }
+    line.push('}');
+    emit(line, true);
+}
+
+/// Dump one function (name + instructions) of a bytecode file.
+pub(crate) fn dump_function(file: &str, origin: &str, name: &str, instructions: &[Instruction]) {
+    let Ok(path) = std::env::var("MSCRIPT_VERIF_DUMP") else {
+        return;
+    };
+    let Ok(mut out) = OpenOptions::new().create(true).append(true).open(path) else {
+        return;
+    };
+    let mut line = String::from("{\"file\":");
+    json_str(&mut line, file);
+    line.push_str(",\"origin\":");
+    json_str(&mut line, origin);
+    line.push_str(",\"name\":");
+    json_str(&mut line, name);
+    line.push_str(",\"code\":[");
+    for (i, instruction) in instructions.iter().enumerate() {
+        if i != 0 {
+            line.push(',');
+        }
+        let op = crate::compilation_bridge::raw_byte_instruction_to_string_representation(
+            instruction.id,
+        )
+        .unwrap_or(std::borrow::Cow::Borrowed("?"));
+        let _ = write!(line, "{{\"id\":{},\"op\":\"{op}\",\"args\":[", instruction.id);
+        for (j, arg) in instruction.arguments.iter().enumerate() {
+            if j != 0 {
+                line.push(',');
+            }
+            json_str(&mut line, arg);
+        }
+        line.push_str("]}");
+    }
+    line.push_str("]}\n");
+    let _ = out.write_all(line.as_bytes());
+}
